@@ -224,7 +224,7 @@ func runC17(c *Check) {
 			}
 		}
 		if app == nil || mk == nil {
-			c.undecided("C17-R5", "places", p.relFile(fp.Pos()), "fillPlaces shape not recognised")
+			c.undecided("C17-R5", "places", p.relFile(fp.Pos()), "fillPlaces keeps no per-stack set of the sources already recorded (no map is created in it): it cannot be shown that a source revisited later in the same stack (mutual recursion) is listed once, at its outermost occurrence")
 		} else {
 			reach := reachUnder(fp, func(cond ssa.Value) int {
 				// the seen-set lookup is true
@@ -251,6 +251,69 @@ func runC17(c *Check) {
 			}
 		}
 	}
+
+	// R6: source interning key.  The key under which makeInitialStacks memoises a source
+	// must, on every path, be computed from the function name, the file name, the line, the
+	// column and the inlined flag: an attribute that reaches the key only on some paths lets
+	// two different sources share one entry (equal names in different files).
+	if mis := c.anchorFn("C17-R6", "internal/report", "(*StackSet).makeInitialStacks"); mis != nil {
+		n := 0
+		forEachFuncAndAnon(mis, func(g *ssa.Function) {
+			for _, b := range g.Blocks {
+				for _, ins := range b.Instrs {
+					lk, ok := ins.(*ssa.Lookup)
+					if !ok {
+						continue
+					}
+					mt, ok := lk.X.Type().Underlying().(*types.Map)
+					if !ok {
+						continue
+					}
+					if bt, ok := mt.Elem().Underlying().(*types.Basic); !ok || bt.Kind() != types.Int {
+						continue // the memo table maps a key to a source index
+					}
+					n++
+					// the inlined flag is the bool parameter of the closure stored into StackSource.Inlined
+					var inl *ssa.Parameter
+					for _, pr := range g.Params {
+						if bt, ok := pr.Type().Underlying().(*types.Basic); ok && bt.Kind() == types.Bool {
+							inl = pr
+						}
+					}
+					attrs := []struct {
+						name string
+						leaf func(ssa.Value) bool
+					}{
+						{"function name", func(v ssa.Value) bool { return fieldLoadOf(v, "profile.Function", "Name") }},
+						{"file name", func(v ssa.Value) bool { return fieldLoadOf(v, "profile.Function", "Filename") }},
+						{"line", func(v ssa.Value) bool { return fieldLoadOf(v, "profile.Line", "Line") || isWholeLine(v) }},
+						{"column", func(v ssa.Value) bool { return fieldLoadOf(v, "profile.Line", "Column") || isWholeLine(v) }},
+						{"inlined flag", func(v ssa.Value) bool { return inl != nil && v == ssa.Value(inl) }},
+					}
+					for _, a := range attrs {
+						key := "intern:" + a.name
+						if mustDepend(lk.Index, a.leaf) {
+							c.ok("C17-R6", key, p.relFile(lk.Pos()), "the source memo key includes the "+a.name, "on every path the looked-up key is computed from it")
+						} else {
+							c.bad("C17-R6", key, p.relFile(lk.Pos()), "the key under which makeInitialStacks memoises sources is not computed from the "+a.name+" on every path: two frames differing only in it share one source (wrong file, merged self values and places)")
+						}
+					}
+				}
+			}
+		})
+		if n != 1 {
+			c.undecided("C17-R6", "intern", p.relFile(mis.Pos()), fmt.Sprintf("expected one memo-table lookup in makeInitialStacks, found %d", n))
+		}
+	}
+}
+
+// isWholeLine: the profile.Line value itself (a parameter passed on to a helper that
+// formats line and column).
+func isWholeLine(v ssa.Value) bool {
+	if pr, ok := v.(*ssa.Parameter); ok {
+		return typeShort(pr.Type()) == "profile.Line"
+	}
+	return false
 }
 
 func derefLoad(v ssa.Value) ssa.Value {
